@@ -34,21 +34,20 @@ func Rec(kind, a, b string, n, m, k int64) int64 {
 	if s == nil {
 		return 0
 	}
-	raceDisable()
 	g := s.lookup()
-	s.mu.Lock()
+	line := fmt.Sprintf("ev %s %s %s %d %d %d", kind, a, b, n, m, k)
+	s.lk()
 	s.evSeq++
 	e := Ev{Seq: s.evSeq, Step: s.step, T: time.Since(s.start), G: -1, Kind: kind, A: a, B: b, N: n, M: m, K: k}
 	if g != nil {
 		e.G = g.id
-		s.addEvent(fmt.Sprintf("ev %s %s %s %d %d %d", kind, a, b, n, m, k))
+		s.addEvent(line)
 	} else {
 		e.Foreign = true
 	}
-	s.history = append(s.history, e)
+	s.history.add(e)
 	seq := s.evSeq
-	s.mu.Unlock()
-	raceEnable()
+	s.ulk()
 	return seq
 }
 
@@ -60,9 +59,7 @@ func GID() int {
 	if s == nil {
 		return -1
 	}
-	raceDisable()
 	g := s.lookup()
-	raceEnable()
 	if g == nil {
 		return -1
 	}
